@@ -160,6 +160,13 @@ func c07DirectiveSpace(c *fw.Ctx) {
 			cases = append(cases, tc{"generate-bound", text, false, 65536, g.n})
 		}
 	}
+	// ${offset,width,base} modifiers with field widths up to and far beyond what a name or a string can hold: whatever
+	// is accepted, the parse stays within the memory bound of its text times the records it yields
+	for _, w := range []string{"0", "1", "63", "64", "254", "255", "256", "257", "1000", "65535", "65536", "1000000", "9999999", "4294967296", "99999999999999999999"} {
+		for _, tmpl := range []string{"h 5 IN TXT ${0,%s,d}", "h${0,%s,d} 5 IN A 192.0.2.1", "h 5 IN TXT ${0,%s,x} ${1,%s,o}"} {
+			cases = append(cases, tc{"generate-width", "$GENERATE 0-1 " + strings.ReplaceAll(tmpl, "%s", w) + "\n", false, 2, -1})
+		}
+	}
 	// an extra ")" at every token boundary of record and directive lines
 	for _, line := range []string{"a. 5 IN A 192.0.2.1", "a. 5 IN MX 10 m.", "a. 5 IN SOA ns. mb. 1 2 3 4 5", "a. 5 IN TXT \"s\" t", "a. 5 IN NS ns.", "a. 5 IN CNAME c.",
 		"$TTL 5", "$ORIGIN o.", "$INCLUDE x", "$INCLUDE x o.", "$GENERATE 0-1 h$ 5 IN A 192.0.2.$"} {
@@ -196,7 +203,7 @@ func c07DirectiveSpace(c *fw.Ctx) {
 			}
 		}
 	}
-	c.Space("directives", fmt.Sprintf("%d written-out directive inputs: an extra ')' at every token boundary (4 spacings) of A/MX/SOA/TXT/NS/CNAME record lines and of each directive line, and an extra ')' / '(' (2 spacings each) at every token boundary behind the class of one record line of each of %d registered types, followed by a valid line (must be an error, and the following line's record must not be returned after an unmatched ')'); nested $GENERATE (3×3 keyword cases × 3 separators × with/without a preceding record × 3 outer ranges: must be an error with no generated record) and 20 $GENERATE ranges at and beyond the 65536-record bound and the int64 edges (count exact, or rejected with no record) × origins {\"\",example.} × includes {off,on}; and $GENERATE → $INCLUDE → $GENERATE through on-disk files; non-trivial: all", len(cases), nTyped), true,
+	c.Space("directives", fmt.Sprintf("%d written-out directive inputs: an extra ')' at every token boundary (4 spacings) of A/MX/SOA/TXT/NS/CNAME record lines and of each directive line, and an extra ')' / '(' (2 spacings each) at every token boundary behind the class of one record line of each of %d registered types, followed by a valid line (must be an error, and the following line's record must not be returned after an unmatched ')'); $GENERATE modifiers with field widths 0 … 10^20 (memory bound per record yielded); nested $GENERATE (3×3 keyword cases × 3 separators × with/without a preceding record × 3 outer ranges: must be an error with no generated record) and 20 $GENERATE ranges at and beyond the 65536-record bound and the int64 edges (count exact, or rejected with no record) × origins {\"\",example.} × includes {off,on}; and $GENERATE → $INCLUDE → $GENERATE through on-disk files; non-trivial: all", len(cases), nTyped), true,
 		func(emit func(func(*fw.R))) {
 			for _, t := range cases {
 				t := t
